@@ -226,6 +226,38 @@ pub fn gen_plan(seed: u64, p: &Profile) -> Plan {
                     }
                 }
             }
+            2 | 3 => {
+                // a balance that is round in the base-128 digits of the range constraint: 128^k,
+                // 128^k +/- 1, 128^k + 128^(k-1) - 1, 127 * 128^k ... reached by the first payment
+                let total = ch.cust_bal as i128 + ch.merch_bal as i128;
+                let mut kmax = 0u32;
+                while kmax < 8 && 128i128.pow(kmax + 1) <= total.min(MAXB) {
+                    kmax += 1;
+                }
+                if kmax == 0 {
+                    continue;
+                }
+                let k = 1 + s2.usize(kmax as usize) as u32;
+                let base = 128i128.pow(k);
+                let t = match s2.usize(6) {
+                    0 => base,
+                    1 => base - 1,
+                    2 => base + 1,
+                    3 => base + base / 128 - 1,
+                    4 => 127 * base,
+                    _ => base + s2.below(128) as i128,
+                };
+                let (c, m) = (ch.cust_bal as i128, ch.merch_bal as i128);
+                let on_customer = s2.chance(1, 2);
+                // amount that leaves the customer (or the merchant) with exactly t
+                let a = if on_customer { c - t } else { t - m };
+                let (nc, nm) = (c - a, m + a);
+                if nc >= 0 && nm >= 0 && nc <= MAXB && nm <= MAXB {
+                    if let Some(p0) = ch.payments.first_mut() {
+                        p0.amount = clamp_i64(a);
+                    }
+                }
+            }
             _ => {}
         }
     }
